@@ -18,7 +18,10 @@ import (
 // IndepCase: a run of string/binary decodes from one reused input buffer.
 type IndepCase struct {
 	Lens []int `json:"lens"` // value lengths, decoded one after another
-	Mode []int `json:"mode"` // per value: 0 Binary.ReadString, 1 Binary.ReadBinary, 2 BufferReader.ReadBinary, 3 BufferReader.ReadString (bytes reader), 4/5 same over a stream reader, 6 method name from BufferReader.ReadMessageBegin
+	Mode []int `json:"mode"` // per value: 0 Binary.ReadString, 1 Binary.ReadBinary, 2 BufferReader.ReadBinary, 3 BufferReader.ReadString (bytes reader), 4/5 same over a stream reader, 6 method name from BufferReader.ReadMessageBegin,
+	// 8 message headers cut inside the sequence id / the name (the decode fails, nothing is kept), 9 a BufferReader.ReadBinary whose data
+	// is cut short (fails; the slice it returns is kept and written to at the end), 10 a nested payload: a binary is decoded and a string is
+	// then decoded out of that returned slice (both kept; the outer slice is overwritten at the end)
 }
 
 type keptVal struct {
@@ -41,6 +44,7 @@ func runIndep(c *IndepCase) (out [][]byte, v *evid.Violation) {
 	}
 	in := make([]byte, 0, 4+maxLen+16)
 	var kept []keptVal
+	var junk [][]byte // slices handed back by failed calls
 	for i, l := range c.Lens {
 		in = in[:4+l]
 		in[0], in[1], in[2], in[3] = byte(l>>24), byte(l>>16), byte(l>>8), byte(l)
@@ -51,7 +55,64 @@ func runIndep(c *IndepCase) (out [][]byte, v *evid.Violation) {
 		mode := c.Mode[i%len(c.Mode)]
 		k := keptVal{want: want, idx: i}
 		var err error
+		skipKeep := false
 		switch mode {
+		case 8:
+			// rejected message headers: name of l bytes and of 128 + l%300 bytes, cut inside the sequence id and inside the name
+			for _, nl := range []int{l % 5000, 128 + l%300} {
+				name := make([]byte, nl)
+				for j := range name {
+					name[j] = valByte(i, j)
+				}
+				hdr := refMsgHeader(string(name), 1, int32(i))
+				for _, cut := range []int{len(hdr) - 1 - i%4, 8 + nl/2} {
+					if cut < 0 || cut >= len(hdr) {
+						continue
+					}
+					if _, _, _, _, e := thrift.Binary.ReadMessageBegin(hdr[:cut:cut]); e == nil {
+						return nil, evid.Failf("decode %d: Binary.ReadMessageBegin accepted a header cut to %d of %d bytes", i, cut, len(hdr))
+					}
+					rd := bufiox.NewBytesReader(hdr[:cut:cut])
+					r := thrift.NewBufferReader(rd)
+					if _, _, _, e := r.ReadMessageBegin(); e == nil {
+						return nil, evid.Failf("decode %d: BufferReader.ReadMessageBegin accepted a header cut to %d of %d bytes", i, cut, len(hdr))
+					}
+					r.Recycle()
+					rd.Release(nil)
+				}
+			}
+			skipKeep = true
+		case 9:
+			// a binary whose data stops short: the call fails; whatever slice it hands back is the caller's to scribble on
+			short := in[: 4+l/2 : 4+l/2]
+			if l == 0 {
+				skipKeep = true
+				break
+			}
+			rd := bufiox.NewBytesReader(short)
+			r := thrift.NewBufferReader(rd)
+			jb, e := r.ReadBinary()
+			if e == nil {
+				return nil, evid.Failf("decode %d: BufferReader.ReadBinary accepted %d of %d declared bytes", i, l/2, l)
+			}
+			if jb != nil {
+				junk = append(junk, jb)
+			}
+			r.Recycle()
+			rd.Release(nil)
+			skipKeep = true
+		case 10:
+			// nested payload: outer binary = [len][bytes]; the string is decoded out of the returned outer slice
+			outerIn := append([]byte{byte((l + 4) >> 24), byte((l + 4) >> 16), byte((l + 4) >> 8), byte(l + 4)}, in...)
+			outer, _, e := thrift.Binary.ReadBinary(outerIn)
+			if e != nil {
+				return nil, evid.Failf("decode %d: outer binary: %v", i, e)
+			}
+			for j := range outerIn {
+				outerIn[j] = 0xEE
+			}
+			kept = append(kept, keptVal{b: outer, isB: true, want: append([]byte(nil), in...), idx: i})
+			k.s, _, err = thrift.Binary.ReadString(outer)
 		case 0:
 			k.s, _, err = thrift.Binary.ReadString(in)
 		case 1:
@@ -98,7 +159,9 @@ func runIndep(c *IndepCase) (out [][]byte, v *evid.Violation) {
 		if err != nil {
 			return nil, evid.Failf("decode %d (mode %d, %d bytes): %v", i, mode, l, err)
 		}
-		kept = append(kept, k)
+		if !skipKeep {
+			kept = append(kept, k)
+		}
 		// (a) overwrite / reuse the whole input buffer
 		full := in[:cap(in)]
 		for j := range full {
@@ -138,6 +201,16 @@ func runIndep(c *IndepCase) (out [][]byte, v *evid.Violation) {
 		if x != 0xEE {
 			return nil, evid.Failf("appending to a returned byte slice wrote into the input buffer (offset %d became %#x)", j, x)
 		}
+	}
+	// (b2) slices that failed calls handed back: written over their whole capacity
+	for _, jb := range junk {
+		jb = jb[:cap(jb)]
+		for j := range jb {
+			jb[j] = 0x99
+		}
+	}
+	if v := verify("after writing to the slices that failed ReadBinary calls had returned"); v != nil {
+		return nil, v
 	}
 	// (c) overwrite returned byte slices one at a time: siblings must not change
 	for i := range kept {
@@ -335,7 +408,12 @@ var indepLens = []int{0, 1, 2, 64, 100, 127, 128, 129, 255, 256, 1000, 4095, 409
 
 func genIndepCase(t *rapid.T) IndepCase {
 	var c IndepCase
-	switch rapid.IntRange(0, 3).Draw(t, "shape") {
+	switch rapid.IntRange(0, 4).Draw(t, "shape") {
+	case 4: // many small values (below the smallest span class) with a few larger ones in between
+		n := rapid.IntRange(10, 120).Draw(t, "nsmall")
+		for i := 0; i < n; i++ {
+			c.Lens = append(c.Lens, rapid.OneOf(rapid.IntRange(0, 127), rapid.IntRange(0, 127), rapid.IntRange(100, 400)).Draw(t, "slen"))
+		}
 	case 0: // long run in one size class to wrap the 1 MiB span
 		base := rapid.SampledFrom([]int{128, 300, 1000, 5000, 20000, 70000, 131000}).Draw(t, "base")
 		n := (1<<20)/base + rapid.IntRange(2, 12).Draw(t, "extra")
@@ -354,12 +432,12 @@ func genIndepCase(t *rapid.T) IndepCase {
 			c.Lens = append(c.Lens, rapid.OneOf(rapid.SampledFrom(indepLens), rapid.IntRange(0, 3000)).Draw(t, "len"))
 		}
 	}
-	c.Mode = rapid.SliceOfN(rapid.IntRange(0, 7), 1, 7).Draw(t, "modes")
+	c.Mode = rapid.SliceOfN(rapid.IntRange(0, 10), 1, 7).Draw(t, "modes")
 	return c
 }
 
 func TestC16_Random(t *testing.T) {
-	rec := evid.New("C16", "c16_random", "rapid: runs of 1..450 decodes of strings/binaries through Binary.ReadString/ReadBinary and BufferReader.ReadString/ReadBinary (bytes-backed and stream-backed), lengths from every span-allocator class (0, 1..127, 128..255, ... 64Ki..128Ki-1, >=128Ki) incl. long runs in one class that wrap the 1 MiB span; after each decode the whole input buffer is overwritten and reused; afterwards every returned byte slice is appended to and overwritten one at a time while all other values are re-verified; each case runs with the span cache disabled and enabled and the two result lists must be equal; non-trivial = a run wrapping a span or mixing >= 3 size classes")
+	rec := evid.New("C16", "c16_random", "rapid: runs of 1..450 decodes of strings/binaries through Binary.ReadString/ReadBinary and BufferReader.ReadString/ReadBinary (bytes-backed and stream-backed), interleaved with rejected message headers (cut inside the sequence id / the name), BufferReader.ReadBinary calls on data cut short (the slice they hand back is kept and written to later) and nested payloads (a string decoded out of a previously returned byte slice, which is overwritten later); lengths from every span-allocator class (0, 1..127, 128..255, ... 64Ki..128Ki-1, >=128Ki) incl. long runs in one class that wrap the 1 MiB span; after each decode the whole input buffer is overwritten and reused; afterwards every returned byte slice is appended to and overwritten one at a time while all other values are re-verified; each case runs with the span cache disabled and enabled and the two result lists must be equal; non-trivial = a run wrapping a span or mixing >= 3 size classes")
 	defer rec.Flush()
 	rec.Assume("the span-cache switch is a process global; it is flipped only between runs inside one goroutine, never concurrently")
 	runRapid(t, rec, "c16_independence", evid.Pick(1000, 6000), genIndepCase, checkIndep)
